@@ -1,7 +1,9 @@
 #!/usr/bin/env python3
 """(Re)generate seeded/<name>/meta.json from agent_meta.json + ran.txt (written by tools/seed_eval.sh)."""
+import os as _os
+ROOT = _os.path.dirname(_os.path.dirname(_os.path.abspath(__file__)))
 import json, os, re, glob
-for d in sorted(glob.glob('/verif/seeded/*')):
+for d in sorted(glob.glob(ROOT + '/seeded/*')):
     name = os.path.basename(d)
     am = {}
     try:
